@@ -9,8 +9,8 @@
 (***************************************************************************)
 EXTENDS Integers, Sequences, FiniteSets, TLC, Json, IOUtils
 
-CIds == 1..8
-CTags == 0..3
+CIds == 1..80
+CTags == 0..80
 INSTANCE ServeContract
 
 Tr == ndJsonDeserialize(IOEnv.TRACE)
